@@ -50,6 +50,7 @@ func main() {
 		ff = &report.FindingsFile{}
 		run.FixtureFails = append(run.FixtureFails, "known_findings.json unreadable: "+err.Error())
 	}
+	os.Setenv("VERIF_TIER", *tier) // the evaluated rules widen their scenario families in the thorough tier
 	ctx := &Ctx{Repo: *repo, Verif: *verif, Tier: *tier, Run: run, NoFixtures: *noFixtures}
 
 	func() {
